@@ -14,6 +14,8 @@ THEOREMS = [
     'Ndn.C13.compile_rejects_undefined_signer', 'Ndn.C13.compile_rejects_unknown_signer', 'Ndn.C13.compile_only_semantic_errors',
     'Ndn.C13.compile_ok_iff_static', 'Ndn.C13.compile_structure_sane', 'Ndn.C13.compile_accepted_iff', 'Ndn.C13.compile_sane',
     'Ndn.C13.compile_static_sane', 'Ndn.C13.compile_sane_partial',
+    'Ndn.C13.signCycle_shapeSelfSigning', 'Ndn.C13.compile_sane_src', 'Ndn.C13.static_sane_src',
+    'Ndn.C13.mergedSigner_counterexample', 'Ndn.C13.mergedSigner_selfSigning',
 ]
 PARTIAL = {
     'Ndn.C13.compile_sane_partial':
@@ -26,9 +28,19 @@ PARTIAL = {
         'compile_rejects_*, compile_only_semantic_errors: no KeyError escapes, the recursion is bounded); every model emitted for an AST '
         'the parser can produce is structurally sane (never LvsModelError) and is accepted by the loader iff its reachable nodes do not '
         'sign each other in a cycle, else SemanticError (compile_structure_sane, compile_accepted_iff, compile_sane, compile_static_sane; '
-        'this includes the converse of sign_cycle_rejected: acyclic => top_order accepts). NOT proved, still oracle/correspondence only: '
-        'the node-level signing cycle read back in terms of the source rules ("no name pattern is its own signer": node merging can '
-        'make a name pattern its own signer although the rule-level graph is acyclic).',
+        'this includes the converse of sign_cycle_rejected: acyclic => top_order accepts). The node-level signing cycle is read back at '
+        'the level of the text: all rule chains that end at one node of the compiled tree have one shape (length, and the same component '
+        'values at the same positions), chains = expansions of the definitions of the text (C11: chains_are_expansions), so a signing cycle '
+        'among nodes is a cycle among shapes of name patterns (signCycle_shapeSelfSigning), and a schema without static error in which no '
+        'shape of a name pattern is, directly or transitively, the shape of one of its own signers compiles to a model the loader accepts '
+        '(compile_sane_src, static_sane_src) - exactly the demand this plugin\'s oracle makes (Spec.may_self_sign is that criterion). The '
+        'honest negative is proved too: an acyclic RULE-level signing graph is not enough - #a: "k"/x <= #b, #b: "k"/x has no static error '
+        'and no rule-level cycle, compiles, and the loader refuses the model with SemanticError, because both rules end at one node, which '
+        'lists itself as signer (mergedSigner_counterexample, by kernel evaluation of the compiler and loader models; the real compile_lvs / '
+        'Checker do the same: corpus case merged-signer is replayed on every run). NOT proved: the exact criterion - two name patterns '
+        'share a node iff their merge-key paths are equal (same literals, same pattern numbers with the same constraint sets at first '
+        'occurrences); the shape criterion is coarser (e.g. #a: "k"/x <= #b, #b: "k"/y is accepted by the code but not covered by '
+        'compile_sane_src), which is also why the oracle makes no demand on such schemas.',
 }
 TRUSTED = [
     'C13: the binary model enters the Lean model after LvsModel.parse (the TLV codec is C08); a model whose StartId or '
@@ -359,6 +371,10 @@ def doc_rules_broken(m, bny):
 
 
 # ------------------------------------------------------------------------------------------- cases
+MERGED_SIGNER = {'rules': [{'id': '#a', 'name': [['lit', 'k'], ['pat', 'x']], 'cons': [], 'sign': ['#b']},
+                           {'id': '#b', 'name': [['lit', 'k'], ['pat', 'x']], 'cons': [], 'sign': []}]}
+
+
 def _compile(schema):
     Component, Name, compile_lvs, Checker, SemanticError, LvsModelError, DFN, bny = L.mods()
     return compile_lvs(L.pp(schema))
@@ -369,6 +385,8 @@ def cases(rng, tier):
     per_inj = 6 if tier == 'quick' else None
     per_mut = 14 if tier == 'quick' else None
     fns = L.user_fns(L.FN_NAMES)
+    # corpus: the schema of theorem mergedSigner_counterexample (rule-level signing graph acyclic, same name pattern twice)
+    yield {'kind': 'schema', 'schema': MERGED_SIGNER, 'inject': None, 'corpus': 'merged-signer'}
     for _ in range(n_sch):
         schema = L.gen_schema(rng)
         spec = L.Spec(schema, fns)
@@ -598,6 +616,8 @@ def tags(case, impl):
         t.append('outcome:' + (impl['compile'] if impl['compile'] != 'ok' else impl.get('checker', '?')))
         if impl['may_self_sign']:
             t.append('may-self-sign(no demand)')
+        if case.get('corpus'):
+            t.append('corpus:%s:%s' % (case['corpus'], impl['compile'] if impl['compile'] != 'ok' else impl.get('checker', '?')))
         return t
     mu = case['mut']
     kd = mu[0] + ':' + str(mu[2] if mu[0] == 'node' else (mu[3] if mu[0] in ('ve', 'pe') else (mu[5] if mu[0] == 'opt' else mu[1] if mu[0] == 'wire' else '')))
@@ -635,7 +655,8 @@ LEVEL_TEXT = ('Lean 4 theorems over a hand-written model of Checker._sanity_chec
               '(node pools compared), the compiled model against the real Checker.load/match/check on single-field corruptions of '
               'compiled models, plus the property oracle (documented rules, step cap, static errors) on the implementation.')
 LEVEL_NOTE = ('Proof is about the model; model=code is sampled. The schema-level half is proved for the compiler model (raises exactly on '
-              'static errors, SemanticError only; output sane; accepted iff no node-level signing cycle); the source-level reading of '
-              '"signing cycle" is not (see compile_sane_partial).')
+              'static errors, SemanticError only; output sane; accepted iff no node-level signing cycle; accepted if no shape of a name '
+              'pattern is the shape of one of its own signers; a counterexample shows that rule-level acyclicity is not enough); the exact '
+              'source-level criterion for a signing cycle (equal merge-key paths) is not proved (see compile_sane_partial).')
 TECHNIQUE = 'Lean 4 proof (simulation of the iterative search by structural recursion; dfs soundness/completeness with a pigeonhole argument; invariants of the compiler passes; Kahn both directions) + model/implementation correspondence check (compiler, loader, matcher) + schema-level oracle'
 DESIGN_REF = 'DESIGN.md section 7, C13; findings F10, F16'
